@@ -7,7 +7,8 @@
    parsed it back.  A [CHist] case is a history of CA commands applied through the FSM with the
    answer and the dump of the CA tables after every command.  [tab_ok] compares the model's
    byte classes with the ones tabulated from net/url on this run. *)
-From Verif Require Import Base.Prelude CA.Model.
+From Verif Require Import Base.Prelude.
+From Verif Require Import CA.Model.
 Open Scope string_scope.
 Open Scope N_scope.
 
